@@ -312,4 +312,5 @@ func c10(p *model.Prog, r *report.Result) {
 	_ = fCreate
 	c10r6(p, r)
 	c10r7(p, r)
+	c10r8(p, r)
 }
